@@ -282,8 +282,15 @@ func (vc *VC) useSpecFun(name string) {
 		env = env.push(p.Name, bv)
 	}
 	rs := vc.S.tySort(vc.tyOfTypeExprL(f.Result, true))
-	if f.Body == nil || f.Opaque || f.Rec {
+	if f.Body == nil || ((f.Opaque || f.Rec) && !vc.replayMode) {
 		vc.specDecls = append(vc.specDecls, fmt.Sprintf("(declare-fun %s (%s) %s)", specFunName(name), strings.Join(ps, " "), rs))
+		return
+	}
+	if f.Rec {
+		// replay mode: the contract is evaluated on concrete data, so recursive definitions are given to the solver
+		body, bt := env.tr(f.Body)
+		body = env.coerceNum(body, bt, vc.tyOfTypeExprL(f.Result, true))
+		vc.specDecls = append(vc.specDecls, fmt.Sprintf("(define-fun-rec %s (%s) %s %s)", specFunName(name), strings.Join(decl, " "), rs, body))
 		return
 	}
 	body, bt := env.tr(f.Body)
